@@ -561,7 +561,7 @@ public:
 		Array<Xml>& _children;
 		int i;
 		Enumerator all() const { return *(Enumerator*)this; }
-		ChildrenEnumerator(Xml& e, const String& tag) : _tag(tag), _children(e.children()), i(0) { if (_children[i].tag() != _tag) ++(*this); }
+		ChildrenEnumerator(Xml& e, const String& tag) : _tag(tag), _children(e.children()), i(-1) { ++(*this); }
 		void operator++() { do i++; while (i < _children.length() && _children[i].tag() != _tag); }
 		Xml& operator*() { return _children[i]; }
 		Xml* operator->() { return &(_children[i]); }
